@@ -727,7 +727,7 @@ def coverage_gaps(cov):
 
 
 def stage_generated(ck, binary, tier, nproc, cov):
-    nschemas = int(os.environ.get('XV_C08_N', 32 if tier == 'quick' else 400))     # XV_C08_N: development knob
+    nschemas = int(os.environ.get('XV_C08_N', 32 if tier == 'quick' else 160))     # XV_C08_N: development knob
     chunk = 32 if tier == 'quick' else 50
     stats, fam, rules_seen, tags, codes, cfg_seen, skipped = (cov[k] for k in ('stats', 'fam', 'rules', 'tags', 'codes', 'cfg', 'skipped'))
     shapes = cov['shapes']
@@ -741,7 +741,7 @@ def stage_generated(ck, binary, tier, nproc, cov):
             if c0 >= nschemas:
                 # the targeted rules and schema features must all have been exercised: the bound is a number of schemas, and
                 # which of them carries a rare construct depends on the seed -- go on (bounded) until nothing is missing
-                if only or not coverage_gaps(cov) or nschemas >= (4 if tier == 'quick' else 2) * int(os.environ.get('XV_C08_N', 32 if tier == 'quick' else 400)):
+                if only or not coverage_gaps(cov) or nschemas >= (4 if tier == 'quick' else 2) * int(os.environ.get('XV_C08_N', 32 if tier == 'quick' else 160)):
                     break
                 ck.note('coverage gaps after %d schemas (%s): 16 more' % (nschemas, '; '.join(coverage_gaps(cov))))
                 nschemas += 16
